@@ -234,8 +234,10 @@ pub fn run(run: &Run) {
     run.sample(|| "pair x=[1,2,4] y=[2,-1,0] and shifted copies: covariance, sample_covariance, sample_covariance_onepass, sample_covariance_online".to_string());
     // structured vectors of every length
     let maxl = run.tier.pick(40usize, 96usize);
-    run.bound("structured lengths", format!("1..={}", maxl));
-    (1..=maxl).into_par_iter().for_each(|n| {
+    run.bound("structured lengths", format!("1..={} plus 100, 255..257, 1000, 1023..1025, 4096, 10000", maxl));
+    let mut ls: Vec<usize> = (1..=maxl).collect();
+    ls.extend([100, 255, 256, 257, 1000, 1023, 1024, 1025, 4096, 10_000]);
+    ls.into_par_iter().for_each(|n| {
         for &sh in &shifts {
             let konst: Vec<f64> = vec![3.0 + sh; n];
             let sorted: Vec<f64> = (0..n).map(|i| i as f64 + sh).collect();
@@ -245,7 +247,7 @@ pub fn run(run: &Run) {
                 moments(run, x, t);
                 order(run, x, t);
             }
-            for i in 0..n {
+            for i in (0..n).filter(|i| n <= 96 || *i < 3 || *i + 3 >= n || *i % 509 == 0) {
                 let mut spike = vec![1.0 + sh; n];
                 spike[i] = 41.0 + i as f64 + sh;
                 moments(run, &spike, "spike");
